@@ -13,7 +13,7 @@ import numpy as np
 
 from sim import core
 from sim.core import HarnessError
-from sim.kseam import Seam, compiled_call, kernel
+from sim.kseam import Seam, compiled_call, kernel, same_results
 from sim.parsim import KernelError, Sim, analyse_dry_run, draw_schedule_config
 
 PROPERTY = "C05"
@@ -122,6 +122,8 @@ def generate(rng, tier):
         "xunit": rng.choice(["", "cm", "g/cm**3"]),
         "loglog": bool(ax["log"] and ay["log"] and rng.random() < 0.5),
         "sched": draw_schedule_config(rng, maxT=8),
+        # tuning knobs of the kernel (integer literals >= 64, e.g. chunk sizes) divided by this in the simulated runs
+        "knob": rng.choice([None, None, 1024, 4096, 16384]),
     }
     return case
 
@@ -166,7 +168,7 @@ def call_frontend(case, sim_factory):
             kw[name + "max"] = a["hi"]
     if case["call_op"] is not None:
         kw["operation"] = case["call_op"]
-    with Seam(MODNAME, KATTR, sim_factory) as seam:
+    with Seam(MODNAME, KATTR, sim_factory, knob_scale=case.get("knob")) as seam:
         with np.errstate(all="ignore"):
             plot = osyris.histogram2d(x, y, *layers, **kw)
     return plot, seam.calls
@@ -530,6 +532,13 @@ def execute(case, stats):
                 V("values", label, {"effect": lay_ops[k], "when": label}, {"layer": k, "bin": list(b), "got": float(vals[b]), "want": float(exp[b])})
 
     judge("T=1", p1, c1)
+    ks_ = kernel(MODNAME, KATTR)[2]
+    if case.get("knob") and ks_ is not None and ks_.knobs:
+        stats.inc("probe.run_with_shrunken_kernel_knobs")
+        if viol:
+            # the shrunken constants change the *sequential* result: they are not tuning knobs; judge the shipped values only
+            stats.inc("ambig.knob_variant_changes_sequential_result")
+            return execute(dict(case, knob=None), stats)
     if not viol and c2 is not c1 and c2["result"] is not None:
         judge("scheduled", p2, c2)
         # schedule independence proper: T=1 vs scheduled, outside every band
@@ -549,7 +558,7 @@ def measure(case):
     sw = sum(1 for a, b in zip(dec, dec[1:]) if a != b) if dec else 10**6
     part = {"static-equal": 0, "static-uneven": 1, "dynamic": 2}[case["sched"]["partition"]["kind"]]
     nonfin = sum(1 for v in case["x"]["pts"] + case["y"]["pts"] if not math.isfinite(v))
-    return (case["n"], len(case["layers"]), case["sched"]["T"], part, case["res"], nonfin, sw, len(dec) if dec else 10**6)
+    return (case["n"], len(case["layers"]), case["sched"]["T"], part, case["res"], nonfin, int(bool(case.get("knob"))), sw, len(dec) if dec else 10**6)
 
 
 def canonical(case, viol):
@@ -605,6 +614,8 @@ def reductions(case, viol):
         c["sched"] = dict(s, partition={"kind": "static-equal"})
         c.pop("decisions", None)
         yield from _resched(c)
+    if case.get("knob"):
+        yield dict(case, knob=None)
     # 4. non-finite entries -> finite
     for a in ("x", "y"):
         for i, v in enumerate(case[a]["pts"]):
@@ -667,8 +678,8 @@ def finalize(tier, base_seed, stats, viols):
         mod, orig, ks = kernel(MODNAME, KATTR)
         sim_out = ks.run(Sim(T=1), **args)
         real_out = compiled_call(MODNAME, KATTR, args, nthreads=1)
-        for a, b in zip(sim_out, real_out):
-            if not np.array_equal(np.asarray(a), np.asarray(b), equal_nan=True):
+        for a, b in [(sim_out, real_out)]:
+            if not same_results(a, b):
                 raise HarnessError(f"model divergence: simulated T=1 != compiled T=1 for anchor case {r} (seed {core.H(base_seed, PROPERTY, 'anchor', r)})")
         checked += 1
     return {"fidelity_anchor": {"workloads_compiled_T1_equal_simulated_T1": checked, "attempted": nanchor}}
